@@ -31,6 +31,8 @@ type sdf3Case struct {
 	Ptr   []int        `json:"ptr"`
 	Build string       `json:"build"` // mesh | grouped | ungrouped
 	Pts   [][3]float64 `json:"pts"`
+	// UnitLog2: triangles and query points in units of 2^UnitLog2 (an exact rescaling)
+	UnitLog2 int `json:"unit_log2,omitempty"`
 }
 
 func genSDF3(t *rapid.T) sdf3Case {
@@ -42,6 +44,9 @@ func genSDF3(t *rapid.T) sdf3Case {
 	np := rapid.IntRange(1, 12).Draw(t, "npts")
 	for i := 0; i < np; i++ {
 		c.Pts = append(c.Pts, point3(t, p, c.Tris, fmt.Sprintf("p%d", i)))
+	}
+	if rapid.IntRange(0, 2).Draw(t, "rescaled") == 0 {
+		c.UnitLog2 = rapid.SampledFrom([]int{-50, -40, -30, -20, 20, 40}).Draw(t, "unit_log2")
 	}
 	return c
 }
@@ -94,6 +99,23 @@ func checkSDF3(c sdf3Case, o *kit.Obs) error {
 	tris := make([]*model3d.Triangle, len(c.Tris))
 	ptrIdx := map[*model3d.Triangle]int{}
 	scale := 1.0
+	if c.UnitLog2 != 0 {
+		scale = math.Ldexp(1, c.UnitLog2)
+		ts := make([][9]float64, len(c.Tris))
+		for i, v := range c.Tris {
+			for j := range v {
+				ts[i][j] = math.Ldexp(v[j], c.UnitLog2)
+			}
+		}
+		ps := make([][3]float64, len(c.Pts))
+		for i, v := range c.Pts {
+			for j := range v {
+				ps[i][j] = math.Ldexp(v[j], c.UnitLog2)
+			}
+		}
+		c.Tris, c.Pts = ts, ps
+		o.Label("rescaled")
+	}
 	for i, v := range c.Tris {
 		if !finite(v[:]...) || degenerate3(v, true) {
 			return fmt.Errorf("%w: unusable triangle", kit.ErrInfra)
